@@ -1,12 +1,21 @@
 #!/bin/bash
-# Runs the claimed checks against every seeded mutant; prints which check (if any) catches it.
+# Runs the claimed checks against every seeded mutant; prints which check (if any) catches it
+# and records the result in seeded/results.json.
 cd /verif
-for d in seeded/*/; do
-  id=$(basename $d)
-  prop=$(python3 -c "import json;print(json.load(open('$d/meta.json'))['property'])")
-  extra=$(python3 -c "import json;print(' '.join(json.load(open('$d/meta.json')).get('also_check',[])))")
-  out=$(./tools/try_mutant.sh /verif/$d/patch.diff $prop $extra 2>&1)
-  n=$(echo "$out" | grep -c VIOLATION)
-  first=$(echo "$out" | grep VIOLATION | head -2 | sed 's/.*replay=\/verif\/replays\///' | cut -c1-110 | tr '\n' ';')
-  echo "$id [$prop $extra]: violations=$n $first"
-done
+python3 - <<'PY'
+import json,glob,subprocess,re,os
+res={}
+for d in sorted(glob.glob('/verif/seeded/*/meta.json')):
+    m=json.load(open(d)); i=m['id']
+    props=[m['property']]+m.get('also_check',[])
+    out=subprocess.run(['/verif/tools/try_mutant.sh','/verif/seeded/%s/patch.diff'%i]+props,capture_output=True,text=True).stdout
+    obs=[]
+    for l in out.splitlines():
+        mm=re.search(r'VIOLATION property=(\S+) replay=/verif/replays/\S+/(\S+)\.txt',l)
+        if mm:
+            o=mm.group(1)+":"+mm.group(2)
+            if o not in obs: obs.append(o)
+    res[i]={'checked':props,'violations':len(obs),'obligations':obs}
+    print(i,props,'violations=%d'%len(obs),'; '.join(obs[:2])[:200])
+json.dump(res,open('/verif/seeded/results.json','w'),indent=1)
+PY
